@@ -31,7 +31,10 @@ struct RunCfg { long bs; bool ogp; int exec; /*0 seq, 1 omp-shim*/ int threads; 
 template <class Space> std::vector<std::array<Real, 4>> runFmm(const Cfg& cfg, const Parts4<Real>& parts, const RunCfg& rc, long upper) {
     Tree<Space> tree(cfg, parts, rc.bs, rc.ogp);
     if (rc.exec == 0) { auto algo = std::make_unique<TbfAlgorithm<Real, Kernel<Space>, Space>>(cfg, upper); algo->execute(tree); }
-    else { vsched::configure(rc.threads, rc.policy, 7); auto algo = std::make_unique<TbfOpenmpAlgorithm<Real, Kernel<Space>, Space>>(cfg, upper); algo->execute(tree); }
+    else {
+        if (getenv("VH_FORCE_WAVE")) vsched::configure(std::max(4, rc.threads), vsched::WAVE_RANDOM, 7); else vsched::configure(rc.threads, rc.policy, 7);
+        auto algo = std::make_unique<TbfOpenmpAlgorithm<Real, Kernel<Space>, Space>>(cfg, upper); algo->execute(tree);
+    }
     return rhsByIndex<Real>(tree, long(parts.size()));
 }
 
@@ -44,13 +47,13 @@ void accuracyCase(long kk, uint64_t seed, bool th, Result& res) {
     const int dists[] = {tbx::D_UNIFORM, tbx::D_CLUSTER, tbx::D_LATTICE, tbx::D_FACES, tbx::D_BOXFACES};
     const int dist = dists[r.below(5)];
     const long N = (th ? r.range(200, P >= 12 ? 1500 : 4000) : r.range(100, P >= 8 ? 600 : 1500));
-    const int sign = int(r.below(3));
+    const int sign = ((kk / 4) % 3 == 0) ? 3 : int(r.below(3));   // 3 = neutral +q/-q pairs sharing a leaf (cells with zero net charge)
     const std::string cls = (dist == tbx::D_UNIFORM || dist == tbx::D_CLUSTER) ? ".smooth" : ".edge"; // points on faces/corners are the worst case of the expansions
     const Real minSep = Real(double(geo.width[0]) * 1e-4);
     const auto parts = genCharged<Real>(r, cfg, dist, N, sign, minSep, sizeof(Real) == 4 ? 1e-3 : 1e-6);
     const long n = long(parts.size());
     const RunCfg rc{tbx::blockSizesFor(n, false)[r.below(tbx::blockSizesFor(n, false).size())], r.coin(), 0, 1, 0};
-    res.desc = KEY + " height=" + vh::str(H) + " box=" + geo.name + " width=" + vh::str((double)geo.width[0]) + " N=" + vh::str(n) + " dist=" + vh::str(dist) + " charges=" + (sign == 0 ? "+" : sign == 1 ? "-" : "+-") + " blockSize=" + vh::str(rc.bs) + " ogp=" + vh::str(rc.ogp);
+    res.desc = KEY + " height=" + vh::str(H) + " box=" + geo.name + " width=" + vh::str((double)geo.width[0]) + " N=" + vh::str(n) + " dist=" + vh::str(dist) + " charges=" + (sign == 0 ? "+" : sign == 1 ? "-" : sign == 3 ? "neutral-pairs" : "+-") + " blockSize=" + vh::str(rc.bs) + " ogp=" + vh::str(rc.ogp);
     vh::announce(res.desc);
     if (n < 2) { res.skipped = true; res.skipReason = "fewer than 2 distinct particles"; return; }
     const auto got = runFmm<SpaceN>(cfg, parts, rc, 2);
@@ -66,7 +69,7 @@ void accuracyCase(long kk, uint64_t seed, bool th, Result& res) {
     // invariance: other grouping / executor agree to rounding
     if (kk % 3 == 0) {
         const auto bss = tbx::blockSizesFor(n, false);
-        RunCfg rc2{bss[r.below(bss.size())], !rc.ogp, int(kk % 2), int(r.pick(std::vector<int>{1, 2, 4, 16})), int(r.below(vsched::NB_POLICIES))};
+        RunCfg rc2{bss[r.below(bss.size())], !rc.ogp, getenv("VH_FORCE_WAVE") ? 1 : int(kk % 2), int(r.pick(std::vector<int>{1, 2, 4, 16})), int(r.below(vsched::NB_POLICIES))};
         const auto got2 = runFmm<SpaceN>(cfg, parts, rc2, 2);
         const Errs d = diffNormalised<Real>(got, got2, which, R);
         recordMax(res, KEY + ".inv", std::max(d.pot, d.force));
